@@ -67,11 +67,14 @@ class _RawMixin:
 
     on_packet = None
     no_strict = False           # True: do not offer strict key exchange
+    strict_first_only = False   # True: the kex-strict marker (and ext-info) only in the
+                                # first KEXINIT, as the specification allows ("MUST be
+                                # ignored if present in subsequent KEXINIT")
     cleartext_inject = None     # {'after_kexinit'|'before_newkeys': [(type, body)]}
 
     def _get_extra_kex_algs(self):
         algs = super()._get_extra_kex_algs()
-        if self.no_strict:
+        if self.no_strict or (self.strict_first_only and self._session_id):
             algs = [a for a in algs if not a.startswith(b'kex-strict')]
         return algs
 
@@ -212,7 +215,7 @@ class RawServerConnection(_RawMixin, _c.SSHServerConnection):
 
 
 async def raw_listen(host, port, on_conn, no_strict=False, asym=None,
-                     **kwargs):
+                     strict_first_only=False, **kwargs):
     """Listen with raw server connections; on_conn(conn) is called for each
     new connection object (before any packet is processed)."""
     loop = asyncio.get_event_loop()
@@ -223,6 +226,7 @@ async def raw_listen(host, port, on_conn, no_strict=False, asym=None,
     def factory():
         conn = RawServerConnection(loop, options, wait=None)
         conn.no_strict = no_strict
+        conn.strict_first_only = strict_first_only
         conn.asym = asym
         on_conn(conn)
         return conn
@@ -232,7 +236,8 @@ async def raw_listen(host, port, on_conn, no_strict=False, asym=None,
 
 
 async def raw_connect(host, port, hold_service=False, no_strict=False,
-                      cleartext_inject=None, asym=None, **kwargs):
+                      cleartext_inject=None, asym=None,
+                      strict_first_only=False, **kwargs):
     """Connect, run the key exchange and service request, then go raw
     (hold_service: go raw right after NEWKEYS, before SERVICE_REQUEST)."""
     loop = asyncio.get_event_loop()
@@ -247,6 +252,7 @@ async def raw_connect(host, port, hold_service=False, no_strict=False,
         conn = RawClientConnection(loop, options, wait='auth')
         conn.hold_service = hold_service
         conn.no_strict = no_strict
+        conn.strict_first_only = strict_first_only
         conn.cleartext_inject = cleartext_inject
         conn.asym = asym
         return conn
